@@ -184,7 +184,7 @@ def explain(dev, cl, ter):
     v = d.get("view")
     rev = v in ("1", "2", "12")
     if kind == "panic":
-        if d.get("op") == "len12" and "F17" in cl: return "F17"
+        # F17 is repaired in the code: a panic of len_estimate is never a known finding again
         if d.get("op") == "merge" and "F8" in cl: return "F8"
         if d.get("op") == "merge" and "F8w" in cl: return "F8"
         if d.get("op") == "snap" and rev and "F18" in cl: return "F18"
